@@ -845,4 +845,65 @@ package keeper
 //@   ensures[C17.record_stored] err == nil ==> (kvHas[kvId(layer(ctx), payload(k.storeKey))][metaKeyB(bytesAddr(bytes(contractMetadata.Address)))] && pbMetaType(kvVal[kvId(layer(ctx), payload(k.storeKey))][metaKeyB(bytesAddr(bytes(contractMetadata.Address)))]) == contractMetadata.CustomPrecompiledType && pbMetaAddr(kvVal[kvId(layer(ctx), payload(k.storeKey))][metaKeyB(bytesAddr(bytes(contractMetadata.Address)))]) == bytes(contractMetadata.Address) && pbMetaName(kvVal[kvId(layer(ctx), payload(k.storeKey))][metaKeyB(bytesAddr(bytes(contractMetadata.Address)))]) == contractMetadata.Name && pbMetaTyped(kvVal[kvId(layer(ctx), payload(k.storeKey))][metaKeyB(bytesAddr(bytes(contractMetadata.Address)))]) == contractMetadata.TypedMeta && pbMetaDisabled(kvVal[kvId(layer(ctx), payload(k.storeKey))][metaKeyB(bytesAddr(bytes(contractMetadata.Address)))]) == contractMetadata.Disabled && blen(kvVal[kvId(layer(ctx), payload(k.storeKey))][metaKeyB(bytesAddr(bytes(contractMetadata.Address)))]) != 0)
 //@   ensures[C17.registry_frame] (kvHas[kvId(layer(ctx), payload(k.storeKey))] == old(kvHas[kvId(layer(ctx), payload(k.storeKey))])[metaKeyB(bytesAddr(bytes(contractMetadata.Address))) := kvHas[kvId(layer(ctx), payload(k.storeKey))][metaKeyB(bytesAddr(bytes(contractMetadata.Address)))]] && kvVal[kvId(layer(ctx), payload(k.storeKey))] == old(kvVal[kvId(layer(ctx), payload(k.storeKey))])[metaKeyB(bytesAddr(bytes(contractMetadata.Address))) := kvVal[kvId(layer(ctx), payload(k.storeKey))][metaKeyB(bytesAddr(bytes(contractMetadata.Address)))]])
 //@   ensures[C17.failed_set_writes_nothing] err != nil ==> (kvHas[kvId(layer(ctx), payload(k.storeKey))] == old(kvHas[kvId(layer(ctx), payload(k.storeKey))]) && kvVal[kvId(layer(ctx), payload(k.storeKey))] == old(kvVal[kvId(layer(ctx), payload(k.storeKey))]))
+//@   ensures[C17.registry_key_table] cpcKeyTable(metaKeyB(bytesAddr(bytes(contractMetadata.Address)))) == 2
+
+// ---------------------------------------------------------------------------------------------
+// Deployment (C17): dynamic addresses come from the cpc module account's sequence; fixed-address contracts are deployed
+// at their fixed addresses; every deployment is a NEW registry record (never an overwrite).
+// ---------------------------------------------------------------------------------------------
+//@ import crypto "github.com/ethereum/go-ethereum/crypto"
+
+//@ func (k Keeper) GetNextDynamicCustomPrecompiledContractAddress(ctx sdk.Context) common.Address
+//@   modifies acctExists[layer(ctx)], acctSeq[layer(ctx)], authVersion[layer(ctx)]
+//@   ensures[C17.dynamic_address_from_sequence] result == crypto.CreateAddress(cpctypes.CpcModuleAddress, old(acctSeq[layer(ctx)][moduleAddr(cpctypes.ModuleName)]))
+//@   ensures[C17.sequence_consumed] acctSeq[layer(ctx)] == old(acctSeq[layer(ctx)])[moduleAddr(cpctypes.ModuleName) := (old(acctSeq[layer(ctx)][moduleAddr(cpctypes.ModuleName)]) + 1) % pow2(64)] && acctExists[layer(ctx)][moduleAddr(cpctypes.ModuleName)]
+//@   panics only_if !modExists(cpctypes.ModuleName)
+
+//@ func (k Keeper) DeployStakingCustomPrecompiledContract(ctx sdk.Context, stakingMeta cpctypes.StakingCustomPrecompiledContractMeta) (addr common.Address, err error)
+//@   requires k.storeKey != nil && k.cdc != nil
+//@   modifies kvHas[kvId(layer(ctx), payload(k.storeKey))], kvVal[kvId(layer(ctx), payload(k.storeKey))], evlog[payload(ctx.EventManager())]
+//@   ensures[C17.DeployStakingCustomPrecompiledContract_at_fixed_address] err == nil ==> (addr == cpctypes.CpcStakingFixedAddress && !old(kvHas[kvId(layer(ctx), payload(k.storeKey))][metaKeyB(cpctypes.CpcStakingFixedAddress)]) && kvHas[kvId(layer(ctx), payload(k.storeKey))][metaKeyB(cpctypes.CpcStakingFixedAddress)] && pbMetaType(kvVal[kvId(layer(ctx), payload(k.storeKey))][metaKeyB(cpctypes.CpcStakingFixedAddress)]) == 2 && pbMetaAddr(kvVal[kvId(layer(ctx), payload(k.storeKey))][metaKeyB(cpctypes.CpcStakingFixedAddress)]) == addrBytes(cpctypes.CpcStakingFixedAddress) && !pbMetaDisabled(kvVal[kvId(layer(ctx), payload(k.storeKey))][metaKeyB(cpctypes.CpcStakingFixedAddress)]))
+//@   ensures[C17.DeployStakingCustomPrecompiledContract_frame] (kvHas[kvId(layer(ctx), payload(k.storeKey))] == old(kvHas[kvId(layer(ctx), payload(k.storeKey))])[metaKeyB(cpctypes.CpcStakingFixedAddress) := kvHas[kvId(layer(ctx), payload(k.storeKey))][metaKeyB(cpctypes.CpcStakingFixedAddress)]] && kvVal[kvId(layer(ctx), payload(k.storeKey))] == old(kvVal[kvId(layer(ctx), payload(k.storeKey))])[metaKeyB(cpctypes.CpcStakingFixedAddress) := kvVal[kvId(layer(ctx), payload(k.storeKey))][metaKeyB(cpctypes.CpcStakingFixedAddress)]])
+//@   ensures[C17.DeployStakingCustomPrecompiledContract_failure_writes_nothing] err != nil ==> (kvHas[kvId(layer(ctx), payload(k.storeKey))] == old(kvHas[kvId(layer(ctx), payload(k.storeKey))]) && kvVal[kvId(layer(ctx), payload(k.storeKey))] == old(kvVal[kvId(layer(ctx), payload(k.storeKey))]))
+
+//@ func (k Keeper) DeployBech32CustomPrecompiledContract(ctx sdk.Context) (addr common.Address, err error)
+//@   requires k.storeKey != nil && k.cdc != nil
+//@   modifies kvHas[kvId(layer(ctx), payload(k.storeKey))], kvVal[kvId(layer(ctx), payload(k.storeKey))], evlog[payload(ctx.EventManager())]
+//@   ensures[C17.DeployBech32CustomPrecompiledContract_at_fixed_address] err == nil ==> (addr == cpctypes.CpcBech32FixedAddress && !old(kvHas[kvId(layer(ctx), payload(k.storeKey))][metaKeyB(cpctypes.CpcBech32FixedAddress)]) && kvHas[kvId(layer(ctx), payload(k.storeKey))][metaKeyB(cpctypes.CpcBech32FixedAddress)] && pbMetaType(kvVal[kvId(layer(ctx), payload(k.storeKey))][metaKeyB(cpctypes.CpcBech32FixedAddress)]) == 3 && pbMetaAddr(kvVal[kvId(layer(ctx), payload(k.storeKey))][metaKeyB(cpctypes.CpcBech32FixedAddress)]) == addrBytes(cpctypes.CpcBech32FixedAddress) && !pbMetaDisabled(kvVal[kvId(layer(ctx), payload(k.storeKey))][metaKeyB(cpctypes.CpcBech32FixedAddress)]))
+//@   ensures[C17.DeployBech32CustomPrecompiledContract_frame] (kvHas[kvId(layer(ctx), payload(k.storeKey))] == old(kvHas[kvId(layer(ctx), payload(k.storeKey))])[metaKeyB(cpctypes.CpcBech32FixedAddress) := kvHas[kvId(layer(ctx), payload(k.storeKey))][metaKeyB(cpctypes.CpcBech32FixedAddress)]] && kvVal[kvId(layer(ctx), payload(k.storeKey))] == old(kvVal[kvId(layer(ctx), payload(k.storeKey))])[metaKeyB(cpctypes.CpcBech32FixedAddress) := kvVal[kvId(layer(ctx), payload(k.storeKey))][metaKeyB(cpctypes.CpcBech32FixedAddress)]])
+//@   ensures[C17.DeployBech32CustomPrecompiledContract_failure_writes_nothing] err != nil ==> (kvHas[kvId(layer(ctx), payload(k.storeKey))] == old(kvHas[kvId(layer(ctx), payload(k.storeKey))]) && kvVal[kvId(layer(ctx), payload(k.storeKey))] == old(kvVal[kvId(layer(ctx), payload(k.storeKey))]))
+
+// DeployErc20CustomPrecompiledContract: at most one ERC-20 precompile per denomination (the reverse index entry must be
+// free), only for a denomination with positive supply; the record goes to the next dynamic address and the reverse index
+// entry denom -> address is written with it; nothing else in the store changes.
+//@ func (k Keeper) DeployErc20CustomPrecompiledContract(ctx sdk.Context, name string, erc20Meta cpctypes.Erc20CustomPrecompiledContractMeta) (addr common.Address, err error)
+//@   requires k.storeKey != nil && k.cdc != nil && k.bankKeeper != nil
+//@   modifies kvHas[kvId(layer(ctx), payload(k.storeKey))], kvVal[kvId(layer(ctx), payload(k.storeKey))], evlog[payload(ctx.EventManager())], acctExists[layer(ctx)], acctSeq[layer(ctx)], authVersion[layer(ctx)]
+//@   ensures[C17.one_per_denom] err == nil ==> !(old(kvHas[kvId(layer(ctx), payload(k.storeKey))][denomKeyB(erc20Meta.MinDenom)]) && blen(old(kvVal[kvId(layer(ctx), payload(k.storeKey))][denomKeyB(erc20Meta.MinDenom)])) != 0)
+//@   ensures[C17.positive_supply_only] err == nil ==> old(bankSupply[layer(ctx)][erc20Meta.MinDenom]) > 0
+//@   ensures[C17.erc20_meta_valid] err == nil ==> (erc20Meta.Symbol != "" && erc20Meta.Decimals <= 18 && erc20Meta.MinDenom != "" && erc20Meta.Symbol != erc20Meta.MinDenom)
+//@   ensures[C17.erc20_dynamic_address] err == nil ==> (addr == crypto.CreateAddress(cpctypes.CpcModuleAddress, old(acctSeq[layer(ctx)][moduleAddr(cpctypes.ModuleName)])) && !old(kvHas[kvId(layer(ctx), payload(k.storeKey))][metaKeyB(addr)]))
+//@   ensures[C17.erc20_record_and_index] err == nil ==> (kvHas[kvId(layer(ctx), payload(k.storeKey))][metaKeyB(addr)] && pbMetaType(kvVal[kvId(layer(ctx), payload(k.storeKey))][metaKeyB(addr)]) == 1 && pbMetaAddr(kvVal[kvId(layer(ctx), payload(k.storeKey))][metaKeyB(addr)]) == addrBytes(addr) && pbMetaName(kvVal[kvId(layer(ctx), payload(k.storeKey))][metaKeyB(addr)]) == name && !pbMetaDisabled(kvVal[kvId(layer(ctx), payload(k.storeKey))][metaKeyB(addr)]) && jsonErc20MinDenom(strBytes(pbMetaTyped(kvVal[kvId(layer(ctx), payload(k.storeKey))][metaKeyB(addr)]))) == erc20Meta.MinDenom && kvHas[kvId(layer(ctx), payload(k.storeKey))][denomKeyB(erc20Meta.MinDenom)] && kvVal[kvId(layer(ctx), payload(k.storeKey))][denomKeyB(erc20Meta.MinDenom)] == addrBytes(addr))
+//@   ensures[C17.erc20_deploy_frame] kvHas[kvId(layer(ctx), payload(k.storeKey))] == old(kvHas[kvId(layer(ctx), payload(k.storeKey))])[metaKeyB(crypto.CreateAddress(cpctypes.CpcModuleAddress, old(acctSeq[layer(ctx)][moduleAddr(cpctypes.ModuleName)]))) := kvHas[kvId(layer(ctx), payload(k.storeKey))][metaKeyB(crypto.CreateAddress(cpctypes.CpcModuleAddress, old(acctSeq[layer(ctx)][moduleAddr(cpctypes.ModuleName)])))]][denomKeyB(erc20Meta.MinDenom) := kvHas[kvId(layer(ctx), payload(k.storeKey))][denomKeyB(erc20Meta.MinDenom)]] && kvVal[kvId(layer(ctx), payload(k.storeKey))] == old(kvVal[kvId(layer(ctx), payload(k.storeKey))])[metaKeyB(crypto.CreateAddress(cpctypes.CpcModuleAddress, old(acctSeq[layer(ctx)][moduleAddr(cpctypes.ModuleName)]))) := kvVal[kvId(layer(ctx), payload(k.storeKey))][metaKeyB(crypto.CreateAddress(cpctypes.CpcModuleAddress, old(acctSeq[layer(ctx)][moduleAddr(cpctypes.ModuleName)])))]][denomKeyB(erc20Meta.MinDenom) := kvVal[kvId(layer(ctx), payload(k.storeKey))][denomKeyB(erc20Meta.MinDenom)]]
+
+//@ func (k Keeper) GetErc20CustomPrecompiledContractAddressByMinDenom(ctx sdk.Context, minDenom string) (addr *common.Address)
+//@   requires k.storeKey != nil
+//@   modifies nothing
+//@   ensures[C17.denom_index_view] (addr == nil) == !(kvHas[kvId(layer(ctx), payload(k.storeKey))][denomKeyB(minDenom)] && blen(kvVal[kvId(layer(ctx), payload(k.storeKey))][denomKeyB(minDenom)]) != 0)
+//@   ensures[C17.denom_index_value] (addr != nil && blen(kvVal[kvId(layer(ctx), payload(k.storeKey))][denomKeyB(minDenom)]) == 20) ==> *addr == bytesAddr(kvVal[kvId(layer(ctx), payload(k.storeKey))][denomKeyB(minDenom)])
+//@   panics never
+
+// msg_server.go — only an address on the stored whitelist deploys (C17); a request from anybody else fails before any write
+//@ import context "context"
+//@ func (k *msgServer) DeployErc20Contract(goCtx context.Context, req *cpctypes.MsgDeployErc20ContractRequest) (res *cpctypes.MsgDeployErc20ContractResponse, err error)
+//@   requires k != nil && req != nil && k.Keeper.storeKey != nil && k.Keeper.cdc != nil && k.Keeper.bankKeeper != nil
+//@   modifies kvHas[kvId(layer(sdk.UnwrapSDKContext(goCtx)), payload(k.Keeper.storeKey))], kvVal[kvId(layer(sdk.UnwrapSDKContext(goCtx)), payload(k.Keeper.storeKey))], evlog[payload(sdk.UnwrapSDKContext(goCtx).EventManager())], acctExists[layer(sdk.UnwrapSDKContext(goCtx))], acctSeq[layer(sdk.UnwrapSDKContext(goCtx))], authVersion[layer(sdk.UnwrapSDKContext(goCtx))]
+//@   ensures[C17.DeployErc20Contract_whitelisted_only] err == nil ==> (old(cpcParamsStored(kvHas[kvId(layer(sdk.UnwrapSDKContext(goCtx)), payload(k.Keeper.storeKey))], kvVal[kvId(layer(sdk.UnwrapSDKContext(goCtx)), payload(k.Keeper.storeKey))])) && (exists j int :: 0 <= j && j < pbParamsWLLen(old(cpcParamsDoc(kvHas[kvId(layer(sdk.UnwrapSDKContext(goCtx)), payload(k.Keeper.storeKey))], kvVal[kvId(layer(sdk.UnwrapSDKContext(goCtx)), payload(k.Keeper.storeKey))]))) && pbParamsWLAt(old(cpcParamsDoc(kvHas[kvId(layer(sdk.UnwrapSDKContext(goCtx)), payload(k.Keeper.storeKey))], kvVal[kvId(layer(sdk.UnwrapSDKContext(goCtx)), payload(k.Keeper.storeKey))])), j) == req.Authority))
+//@   ensures[C17.DeployErc20Contract_rejected_writes_nothing] !(old(cpcParamsStored(kvHas[kvId(layer(sdk.UnwrapSDKContext(goCtx)), payload(k.Keeper.storeKey))], kvVal[kvId(layer(sdk.UnwrapSDKContext(goCtx)), payload(k.Keeper.storeKey))])) && (exists j int :: 0 <= j && j < pbParamsWLLen(old(cpcParamsDoc(kvHas[kvId(layer(sdk.UnwrapSDKContext(goCtx)), payload(k.Keeper.storeKey))], kvVal[kvId(layer(sdk.UnwrapSDKContext(goCtx)), payload(k.Keeper.storeKey))]))) && pbParamsWLAt(old(cpcParamsDoc(kvHas[kvId(layer(sdk.UnwrapSDKContext(goCtx)), payload(k.Keeper.storeKey))], kvVal[kvId(layer(sdk.UnwrapSDKContext(goCtx)), payload(k.Keeper.storeKey))])), j) == req.Authority)) ==> (err != nil && (kvHas[kvId(layer(sdk.UnwrapSDKContext(goCtx)), payload(k.Keeper.storeKey))] == old(kvHas[kvId(layer(sdk.UnwrapSDKContext(goCtx)), payload(k.Keeper.storeKey))]) && kvVal[kvId(layer(sdk.UnwrapSDKContext(goCtx)), payload(k.Keeper.storeKey))] == old(kvVal[kvId(layer(sdk.UnwrapSDKContext(goCtx)), payload(k.Keeper.storeKey))])) && acctSeq[layer(sdk.UnwrapSDKContext(goCtx))] == old(acctSeq[layer(sdk.UnwrapSDKContext(goCtx))]))
+
+//@ func (k *msgServer) DeployStakingContract(goCtx context.Context, req *cpctypes.MsgDeployStakingContractRequest) (res *cpctypes.MsgDeployStakingContractResponse, err error)
+//@   requires k != nil && req != nil && k.Keeper.storeKey != nil && k.Keeper.cdc != nil && k.Keeper.bankKeeper != nil
+//@   modifies kvHas[kvId(layer(sdk.UnwrapSDKContext(goCtx)), payload(k.Keeper.storeKey))], kvVal[kvId(layer(sdk.UnwrapSDKContext(goCtx)), payload(k.Keeper.storeKey))], evlog[payload(sdk.UnwrapSDKContext(goCtx).EventManager())], acctExists[layer(sdk.UnwrapSDKContext(goCtx))], acctSeq[layer(sdk.UnwrapSDKContext(goCtx))], authVersion[layer(sdk.UnwrapSDKContext(goCtx))]
+//@   ensures[C17.DeployStakingContract_whitelisted_only] err == nil ==> (old(cpcParamsStored(kvHas[kvId(layer(sdk.UnwrapSDKContext(goCtx)), payload(k.Keeper.storeKey))], kvVal[kvId(layer(sdk.UnwrapSDKContext(goCtx)), payload(k.Keeper.storeKey))])) && (exists j int :: 0 <= j && j < pbParamsWLLen(old(cpcParamsDoc(kvHas[kvId(layer(sdk.UnwrapSDKContext(goCtx)), payload(k.Keeper.storeKey))], kvVal[kvId(layer(sdk.UnwrapSDKContext(goCtx)), payload(k.Keeper.storeKey))]))) && pbParamsWLAt(old(cpcParamsDoc(kvHas[kvId(layer(sdk.UnwrapSDKContext(goCtx)), payload(k.Keeper.storeKey))], kvVal[kvId(layer(sdk.UnwrapSDKContext(goCtx)), payload(k.Keeper.storeKey))])), j) == req.Authority))
+//@   ensures[C17.DeployStakingContract_rejected_writes_nothing] !(old(cpcParamsStored(kvHas[kvId(layer(sdk.UnwrapSDKContext(goCtx)), payload(k.Keeper.storeKey))], kvVal[kvId(layer(sdk.UnwrapSDKContext(goCtx)), payload(k.Keeper.storeKey))])) && (exists j int :: 0 <= j && j < pbParamsWLLen(old(cpcParamsDoc(kvHas[kvId(layer(sdk.UnwrapSDKContext(goCtx)), payload(k.Keeper.storeKey))], kvVal[kvId(layer(sdk.UnwrapSDKContext(goCtx)), payload(k.Keeper.storeKey))]))) && pbParamsWLAt(old(cpcParamsDoc(kvHas[kvId(layer(sdk.UnwrapSDKContext(goCtx)), payload(k.Keeper.storeKey))], kvVal[kvId(layer(sdk.UnwrapSDKContext(goCtx)), payload(k.Keeper.storeKey))])), j) == req.Authority)) ==> (err != nil && (kvHas[kvId(layer(sdk.UnwrapSDKContext(goCtx)), payload(k.Keeper.storeKey))] == old(kvHas[kvId(layer(sdk.UnwrapSDKContext(goCtx)), payload(k.Keeper.storeKey))]) && kvVal[kvId(layer(sdk.UnwrapSDKContext(goCtx)), payload(k.Keeper.storeKey))] == old(kvVal[kvId(layer(sdk.UnwrapSDKContext(goCtx)), payload(k.Keeper.storeKey))])) && acctSeq[layer(sdk.UnwrapSDKContext(goCtx))] == old(acctSeq[layer(sdk.UnwrapSDKContext(goCtx))]))
 
